@@ -1,5 +1,7 @@
 import StarsimModel.Props.C09
 open StarsimModel.C09
+#print axioms C09_guards_extracted
+#print axioms C09_stop_condition_extracted
 #print axioms C09_split
 #print axioms C09_split_executed
 #print axioms C09_any_op_sequence
